@@ -326,7 +326,8 @@ def lattice_history(rng, sites, occupancy, box):
         for s, on in zip(sites, occ):
             if on:
                 pos = [float(x + rng.uniform(-0.04, 0.04)) for x in s]
-                fr.append(pos + [float(rng.choice(RADII))])
+                # a vanishing droplet (radius exactly 0) now and then
+                fr.append(pos + [0.0 if rng.random() < 0.08 else float(rng.choice(RADII))])
         frames.append(fr)
     return frames
 
@@ -339,13 +340,23 @@ def rect_sites(nx, ny):
     return [[i + 0.5, j + 0.5] for i in range(nx) for j in range(ny)], [[0.0, float(nx)], [0.0, float(ny)]]
 
 
-def lattice_cases(rng, sites, bounds, occupancy, time_mode=0):
+LATTICE_TIME_AXES = [
+    [0, 1, 2, 3, 4], [-1.5, 0, 0.25, 3.0, 7.5], [2.0, 2.5, 10.0, 11, 12],
+    [200000.0, 200001.0, 200002.0, 200003.0, 200004.0],  # spacing tiny relative to the offset
+    [0.0, 1e-9, 2e-9, 3e-9, 4e-9],  # spacing tiny in absolute terms
+]
+
+
+def lattice_cases(rng, sites, bounds, occupancy, time_mode=0, origin=0.0):
     """All (method, cut-off, grid) configurations of one occupancy history."""
     dim = len(bounds)
     shape = [int(b[1] - b[0]) * 2 for b in bounds]
+    # the box does not have to start at the origin
+    sites = [[x + origin for x in s_] for s_ in sites]
+    bounds = [[b[0] + origin, b[1] + origin] for b in bounds]
     grid = {"family": "cart", "bounds": bounds, "shape": shape, "periodic": [True] * dim}
     T = len(occupancy)
-    times = [[0, 1, 2, 3, 4][:T], [-1.5, 0, 0.25, 3.0, 7.5][:T], [2.0, 2.5, 10.0, 11, 12][:T]][time_mode]
+    times = LATTICE_TIME_AXES[time_mode % len(LATTICE_TIME_AXES)][:T]
     frames = lattice_history(rng, sites, occupancy, bounds)
     out = []
     for method, cut in CONFIGS:
@@ -363,12 +374,19 @@ def random_history(rng, *, overlapping=False):
     periodic = [bool(rng.integers(0, 2)) for _ in range(dim)]
     if use_grid and not any(periodic):
         periodic[int(rng.integers(dim))] = True
-    grid = {"family": "cart", "bounds": [[0.0, L]] * dim, "shape": [8] * dim, "periodic": periodic} if use_grid else None
+    lo = float(rng.choice([0.0, 0.0, -L / 2, 10.0, float(np.round(rng.uniform(-5, 5), 2))]))  # box origin
+    grid = {"family": "cart", "bounds": [[lo, lo + L]] * dim, "shape": [8] * dim, "periodic": periodic} if use_grid else None
     per = geom.cart_periodicity(grid) if grid else [None] * dim
     # times: strictly increasing, possibly negative, possibly containing exactly 0 later on
     mode = rng.random()
-    if mode < 0.3:
+    if mode < 0.25:
         times = list(range(T))
+    elif mode < 0.35:  # spacing tiny relative to the offset, or tiny in absolute terms
+        if rng.random() < 0.5:
+            t_base, t_step = float(rng.choice([1e5, 2e5, 1e7])), float(rng.choice([1.0, 2.0, 0.5]))
+        else:
+            t_base, t_step = 0.0, float(rng.choice([1e-9, 1e-10, 3e-9]))
+        times = [t_base + k * t_step for k in range(T)]
     elif mode < 0.6:
         t0 = -float(rng.integers(1, 4)) * float(rng.choice([0.5, 0.75, 1.0, 2.0]))
         step = -t0 / int(rng.integers(1, 3))
@@ -377,7 +395,7 @@ def random_history(rng, *, overlapping=False):
         times = list(np.cumsum(rng.uniform(0.1, 3.0, T)) + rng.uniform(-10, 10))
     times = [float(t) for t in times]
     n0 = int(rng.integers(0, 7))
-    drops = [(rng.uniform(0, L, dim), float(rng.uniform(0.2, 1.0))) for _ in range(n0)]
+    drops = [(lo + rng.uniform(0, L, dim), float(rng.uniform(0.2, 1.0))) for _ in range(n0)]
     frames = []
     step = float(rng.choice([0.05, 0.3, 1.0]))
     drift = rng.normal(0, 1, dim) * float(rng.choice([0.0, 0.0, 0.8]))
@@ -388,24 +406,29 @@ def random_history(rng, *, overlapping=False):
             continue
         new = []
         for p, R in drops:
+            if R == 0:
+                continue  # vanished in the previous frame
             if rng.random() < 0.12:
+                if rng.random() < 0.4:
+                    new.append((p + rng.normal(0, 0.02, dim), 0.0))  # shrinks to radius exactly 0 before it disappears
                 continue  # death
             p2 = p + drift * step + rng.normal(0, step, dim)
             if grid:
-                p2 = np.where(periodic, p2 % L, p2)
+                p2 = np.where(periodic, (p2 - lo) % L + lo, p2)
             if rng.random() < 0.06:  # splitting
                 new.append((p2 + 0.6 * R, R * 0.7))
                 new.append((p2 - 0.6 * R, R * 0.7))
             else:
                 new.append((p2, max(0.05, R * float(rng.uniform(0.9, 1.1)))))
         if rng.random() < 0.3:
-            new.append((rng.uniform(0, L, dim), float(rng.uniform(0.2, 1.0))))  # birth
+            new.append((lo + rng.uniform(0, L, dim), float(rng.uniform(0.2, 1.0))))  # birth
         if rng.random() < 0.2:
             rng.shuffle(new)  # member order changes between frames
         if not overlapping:
             kept = []
             for p, R in new:
-                if all(geom.distance(p, q, per) >= R + R2 + 1e-6 for q, R2 in kept):
+                if all(geom.distance(p, q, per) >= R + R2 + 1e-6 for q, R2 in kept) and \
+                        all(np.any(p != q) for q, _ in kept):
                     kept.append((p, R))
             new = kept
         drops = new
@@ -422,7 +445,8 @@ def adversarial_history(rng):
     """Uniform drift across a periodic boundary, swaps, two candidates for one track."""
     dim = int(rng.choice([1, 2]))
     L = 10.0
-    grid = {"family": "cart", "bounds": [[0.0, L]] * dim, "shape": [10] * dim, "periodic": [True] * dim}
+    lo = float(rng.choice([0.0, -5.0, 10.0, 3.25]))  # box origin
+    grid = {"family": "cart", "bounds": [[lo, lo + L]] * dim, "shape": [10] * dim, "periodic": [True] * dim}
     k = int(rng.integers(2, 5))
     T = int(rng.integers(2, 7))
     mode = int(rng.integers(3))
@@ -435,7 +459,7 @@ def adversarial_history(rng):
     for t in range(T):
         fr = []
         for i, b in enumerate(base):
-            p = (b + v * t) % L
+            p = (b + v * t) % L + lo
             if mode == 1 and i == 0 and t >= T // 2:
                 continue  # one droplet disappears midway
             fr.append([float(x) for x in p] + [R * (1 + 0.01 * i)])
